@@ -9,6 +9,7 @@ CONSTANTS
   MaxFaults = 0
   AllowStop = FALSE
   AllowCancel = FALSE
+  AllowHalf = FALSE
   Reconnect = TRUE
   MaxAttempts = 2
   FixExitOrder = TRUE
